@@ -207,11 +207,23 @@ boost::optional<ndsize_t> getSampledIndex(const double position, const double of
         if (tmp < 0.0) {
             tmp = 0.0;
         }
-        bool equals = fabs(tmp * sampling_interval + offset - position) <= numeric_limits<double>::epsilon();
+        // the rounded quotient can be off by one: correct it against the sample positions (cf. positionAt)
+        if (tmp >= 1.0 && (tmp - 1.0) * sampling_interval + offset >= position) {
+            tmp -= 1.0;
+        } else if (tmp * sampling_interval + offset < position) {
+            tmp += 1.0;
+        }
+        bool equals = tmp * sampling_interval + offset == position;
         index = (match == PositionMatch::Greater && equals) ? static_cast<ndsize_t>(tmp + 1) : static_cast<ndsize_t>(tmp);
     } else if (match == PositionMatch::Less || match == PositionMatch::LessOrEqual) {
         tmp = floor((position - offset) / sampling_interval);
-        bool equals = fabs(tmp * sampling_interval + offset - position) <= numeric_limits<double>::epsilon();
+        // the rounded quotient can be off by one: correct it against the sample positions (cf. positionAt)
+        if (tmp >= 1.0 && tmp * sampling_interval + offset > position) {
+            tmp -= 1.0;
+        } else if ((tmp + 1.0) * sampling_interval + offset <= position) {
+            tmp += 1.0;
+        }
+        bool equals = tmp * sampling_interval + offset == position;
         if (match == PositionMatch::Less && equals) { 
             if (tmp >= 1) {
                 index = static_cast<ndsize_t>(tmp - 1);
@@ -221,7 +233,7 @@ boost::optional<ndsize_t> getSampledIndex(const double position, const double of
         }
     } else {
         tmp = round((position - offset) / sampling_interval);
-        if (fabs(tmp * sampling_interval + offset - position) <= numeric_limits<double>::epsilon()) {
+        if (tmp * sampling_interval + offset == position) {
             index = static_cast<ndsize_t>(tmp);
         }
     }
